@@ -15,7 +15,8 @@ type Shared struct {
 	Vars     []string `json:"vars,omitempty"` // Config.Vars (name, value pairs)
 	Args     []string `json:"args,omitempty"` // Config.Args (file operands resolved by OpenFile)
 	Native   bool     `json:"native,omitempty"`
-	CSV      bool     `json:"csv,omitempty"` // CSV input mode with a header row
+	CSV      bool     `json:"csv,omitempty"`  // CSV input mode with a header row
+	Exec     bool     `json:"exec,omitempty"` // commands allowed, run by the default shell (Config.ShellCommand unset)
 	Features []string `json:"features,omitempty"`
 }
 
@@ -187,4 +188,24 @@ func indexOf(l []int, v int) int {
 func SharedFromCorpus(rng *rand.Rand, progs []string) Shared {
 	src := progs[rng.Intn(len(progs))]
 	return Shared{Gen: "corpus", Src: src, Input: genInput(rng, false), Features: []string{"corpus"}}
+}
+
+// ExecShared are shared programs that run commands through the default shell: system(), a
+// command read by getline, a command written to by print. Every interpreter of a concurrent round
+// builds its own command line from the same (package-level) default. Records come from a file
+// operand, never from Stdin: os/exec copies a non-file Stdin into every child from a goroutine
+// of its own, so which records are left for the program would depend on timing.
+var ExecShared = []Shared{
+	{Gen: "exec", Exec: true, Features: []string{"exec-system", "exec-getline", "exec-print-pipe"}, Args: []string{"data.txt"},
+		Src: `BEGIN { r = system("exit 3"); print "sys", r; "echo hi" | getline x; close("echo hi"); print "got", x }
+{ cmd = "echo " $1 "-" NR; cmd | getline y; r2 = close(cmd); print y, r2 }
+END { print "to-cat" | "cat"; r3 = close("cat"); print "end", r3, system("true"), system("exit 1") }
+`},
+	{Gen: "exec", Exec: true, Features: []string{"exec-print-pipe-end-of-run"}, Args: []string{"data.txt"},
+		Src: `{ print $1 | "sort" }
+END { print "sorted below" }
+`},
+	{Gen: "exec", Exec: true, Features: []string{"exec-getline-loop"}, Input: "",
+		Src: `BEGIN { while (("printf 'a\\nb\\nc\\n'" | getline l) > 0) n = n l; print n; close("printf 'a\\nb\\nc\\n'"); system("echo from-child") ; print "after" }
+`},
 }
